@@ -113,6 +113,19 @@ def run(ctx):
                             if a and strip(a[0])["k"] == "DeclRefExpr" and strip(a[0]).get("d") == p0:
                                 fwd[f.q] = (what, ring_of(n))
 
+    def through_alias(f, e):
+        """a local that merely holds the value of an expression stands for that expression"""
+        e = strip(e)
+        hops = 0
+        while e is not None and e["k"] == "DeclRefExpr" and e.get("loc") and hops < 3:
+            ds = f.local_defs().get(e["d"], [])
+            if len(ds) == 1 and ds[0]["k"] == "VarDecl" and kids(ds[0]):
+                e = strip(kids(ds[0])[0])
+                hops += 1
+                continue
+            break
+        return e
+
     def this_call(f, n, names=None):
         """member call on implicit/explicit this"""
         if n["k"] != "CXXMemberCallExpr":
@@ -128,7 +141,8 @@ def run(ctx):
                 if n["k"] == "CXXMemberCallExpr" and fwd.get(callee(n), ("",))[0] == "removeRef":
                     o = call_object(n)
                     a = call_args(n)
-                    if o is not None and strip(o)["k"] == "MemberExpr" and strip(o).get("n") == fq and a and strip(a[0])["k"] == "CXXThisExpr":
+                    o = through_alias(f, o) if o is not None else None
+                    if o is not None and o["k"] == "MemberExpr" and o.get("n") == fq and a and strip(a[0])["k"] == "CXXThisExpr":
                         release[f.q] = h
 
     # ---- R1: writes -------------------------------------------------------------
@@ -186,7 +200,8 @@ def run(ctx):
                     return False
                 o = call_object(x)
                 a = call_args(x)
-                return o is not None and strip(o)["k"] == "MemberExpr" and strip(o).get("n") == fq and bool(a) and strip(a[0])["k"] == "CXXThisExpr"
+                o = through_alias(f, o) if o is not None else None
+                return o is not None and o["k"] == "MemberExpr" and o.get("n") == fq and bool(a) and strip(a[0])["k"] == "CXXThisExpr"
             IN = cfg.facts_in()
             path = None
             pos = cfg.position(n)
